@@ -52,7 +52,7 @@ def gen_params(rng: random.Random, idx, tier="quick", profile="mixed", force=Non
     """profile: 'rebalance' (C05: membership churn, light faults), 'commit' (C04: kills/stops, commit faults),
     'faults' (C06: heavy group-API faults, several assignors), 'mixed'."""
     n_members = rng.choice([1, 2, 2, 3, 3, 4])
-    n_topics = rng.choice([1, 1, 2])
+    n_topics = rng.choice([1, 1, 2, 3])
     topics = {f"t{chr(97 + i)}": rng.choice([2, 3, 4]) for i in range(n_topics)}
     n_assignors = rng.choice([1, 1, 2, 3]) if profile in ("faults", "mixed") else rng.choice([1, 1, 1, 2])
     assignors = rng.sample(ASSIGNOR_NAMES, n_assignors)
